@@ -25,7 +25,12 @@ ABodies == { T(<<X>>), T(<<Y>>), T(<<X, Y>>), Nil, And(NT("b"), T(<<X>>)), C(";"
 SBodies == { And(NTa("a", VA), NT("b")), And(NTa("a", VA), And(A("!"), NT("b"))), C(";", <<NTa("a", VA), NT("b")>>), C("|", <<NTa("a", VA), T(<<Y>>)>>),
              And(C("\\+", <<NTa("a", V(2))>>), NT("b")), C(";", <<C("->", <<NTa("a", VA), NT("b")>>), T(<<Y>>)>>), And(C("call", <<A("a"), VA>>), NT("b")),
              And(NTa("a", VA), And(C("{}", <<A("!")>>), NT("b"))), And(NTa("a", VA), NTa("a", V(2))), And(And(NTa("a", VA), A("!")), NT("b")),
-             And(NTa("a", VA), And(C("{}", <<C("=", <<VA, A("q")>>)>>), NT("b"))), And(T(<<X>>), And(NTa("a", VA), T(<<Y>>))), And(NTa("a", VA), C("\\+", <<NT("b")>>)) }
+             And(NTa("a", VA), And(C("{}", <<C("=", <<VA, A("q")>>)>>), NT("b"))), And(T(<<X>>), And(NTa("a", VA), T(<<Y>>))), And(NTa("a", VA), C("\\+", <<NT("b")>>)),
+             \* the empty terminal list as a member of a sequence next to an if-then WITHOUT else, as a branch of an alternation: the sequence
+             \* is a conjunction, so the alternation is a plain disjunction (not an if-then-else that commits)
+             C(";", <<And(Nil, C("->", <<NTa("a", VA), NT("b")>>)), And(NTa("a", VA), T(<<Y>>))>>),
+             C("|", <<And(C("->", <<NTa("a", VA), T(<<X>>)>>), Nil), NTa("a", VA)>>),
+             And(Nil, And(NTa("a", VA), Nil)) }
 S2Bodies == { T(<<X>>), NT("b"), And(NT("b"), A("!")), And(T(<<X>>), C("\\+", <<NT("b")>>)) }
 
 Cl(id, r) == [id |-> id, head |-> r.head, body |-> r.body, nv |-> r.nv]
